@@ -111,7 +111,25 @@ def check_history_independence(ctx, module_names: typing.Iterable[str], rule_ali
   b += shape.check_no_memo_decorators(ctx, fs, rule=rule_global)
   ctx.ok(rule_global, f"{len(names)} modules|no process-global state is written", "src/main/python/ttconv", f"{len(fs)} functions scanned; {a + b} tabled exceptions")
   shape.check_pure_queries(ctx, [c for c in ctx.ix.classes.values() if c.module.name in names], summary=True)
+  check_duplicates(ctx, names)
+  ns = shape.check_no_shared_containers(ctx, fs)
+  from ..selfcheck import state_share_fixture_matches
+  ctx.check(state_share_fixture_matches(), "STATE-share", "fixture|a container field stored into another object uncopied is detected", "ttverif/fixtures/state_share.py",
+            f"the rule still matches its positive fixture ({ns} assignments to container fields scanned)", "STATE-share no longer matches its positive fixture (rule broken)")
+  ni = shape.check_item_sources(ctx, fs)
+  from ..selfcheck import item_source_fixture_matches
+  ctx.check(item_source_fixture_matches(), "ITEM-source", "fixture|a container-level value put into every item is detected", "ttverif/fixtures/item_source.py",
+            f"the rule still matches its positive fixture ({ni} fill calls on per-item objects scanned)", "ITEM-source no longer matches its positive fixture (rule broken)")
   return len(fs)
+
+
+def check_duplicates(ctx, module_names: typing.Iterable[str]):
+  """LINT-l on the given modules, with its positive fixture (the expected count on the repository is zero)."""
+  from ..rules import lint
+  from ..selfcheck import lint_l_fixture_matches
+  lint.duplicate_components(ctx, mods(ctx, list(module_names)))
+  ctx.check(lint_l_fixture_matches(), "LINT-l", "fixture|a component listed twice in a key is detected", "ttverif/fixtures/lint_l.py",
+            "the rule still matches its positive fixture", "LINT-l no longer matches its positive fixture (rule broken)")
 
 
 def check_item_handlers(ctx, module_names: typing.Iterable[str]):
@@ -131,3 +149,39 @@ def check_numeric_fields(ctx, module_names: typing.Iterable[str]):
   lint.numeric_field_truthiness(ctx, [c for c in ctx.ix.classes.values() if c.module.name in names])
   ctx.check(lint_k_fixture_matches(), "LINT-k", "fixture|a numeric field tested by truthiness is detected", "ttverif/fixtures/lint_k.py",
             "the rule still matches its positive fixture", "LINT-k no longer matches its positive fixture (rule broken)")
+
+
+NULL_ARG_EXEMPT = {
+  "ttconv.isd:StyleProcessors.|cls.style_prop": "compute() runs only for the properties in styles_to_be_computed, which _process_element fills with properties it has just set on the element",
+}
+
+
+def check_nullable_args(ctx, module_names: typing.Iterable[str], floor=1):
+  """NUL-arg on the given modules."""
+  from ..rules import nul
+  n = nul.check_nullable_args(ctx, funcs(ctx, [m for m in module_names if m in ctx.ix.modules]), exempt=NULL_ARG_EXEMPT)
+  ctx.floor("NUL-arg", "results of None-returning getters passed straight to a call", n, floor)
+  return n
+
+
+def check_known_none(ctx, module_names: typing.Iterable[str]):
+  """NUL-known on the given modules, with its positive fixture (the expected count on the repository is zero)."""
+  from ..rules import nul
+  from ..selfcheck import nul_known_fixture_matches
+  n = nul.check_known_none(ctx, funcs(ctx, [m for m in module_names if m in ctx.ix.modules]))
+  ctx.check(nul_known_fixture_matches(), "NUL-known", "fixture|a dereference of a local known to be None is detected", "ttverif/fixtures/nul_known.py",
+            f"the rule still matches its positive fixture ({n} None tests on locals followed)", "NUL-known no longer matches its positive fixture (rule broken)")
+  return n
+
+
+WALK_EXEMPT = {
+  "ttconv.isd:ISD._process_element": "prunes by design: inactive, other-region and display=none elements end the walk below them (decided by CMP-activity, CMP-prune, ORD-display)",
+  "ttconv.isd:_clone_doc_with_one_region.<locals>._copy_content_element": "prunes by region association (decided by CMP-prune, CLONE-prune)",
+  "ttconv.imsc.elements:ContentElement.from_model": "returns None for model kinds that have no IMSC element (decided by DSP-writer)",
+}
+
+
+def check_walkers(ctx, module_names: typing.Iterable[str]):
+  """TRAV-rec on the recursive tree walkers of the given modules."""
+  from ..rules import trav
+  return trav.check_recursive_walkers(ctx, funcs(ctx, [n for n in module_names if n in ctx.ix.modules]), exempt=WALK_EXEMPT)
